@@ -352,6 +352,172 @@ theorem lazy_delivers (hrel : EnvRel TPx sets X.env X.se) {i : Nat} {s : VMState
     · intro s'' hf''
       exact lazyBack_delivers hrel hia hx ho hfd hback hrtl hpred ⟨w, hw⟩ c i s'' (by omega) (by simpa using hf'')
 
+/-- which predicate family a loop node type belongs to: 0 One, 1 Notone, 2 Set -/
+def selOf (t : Nat) : Nat :=
+  if t == opOneloop || t == opOnelazy || t == opOneloopatomic then 0
+  else if t == opNotoneloop || t == opNotonelazy || t == opNotoneloopatomic then 1 else 2
+
+/-- the successes of the variable part, by kind of loop -/
+def kindList (t i k : Nat) (C : List (Nat × Nat × Nat)) : List St :=
+  if isAtomicT t then [⟨i + k, C⟩] else if isLazyT t then ⟨i, C⟩ :: upFrom i k C else downFrom i k C
+
+/-- the variable part `t x cmax` of a single-character loop node of type `t` -/
+theorem looppart_delivers (hrel : EnvRel TPx sets X.env X.se) {i : Nat} {s : VMState} (hi : i ≤ X.se.n)
+    (he : Entry X a i T S C s) {t sel cmax : Nat} {ci : Bool} {x : Int} {P : Pred}
+    (ht : t ∈ charloopTypes ++ setloopTypes) (hselv : sel = selOf t)
+    (hia : InstrAt X.p a (i2 (t ||| bits false ci) x (cmax : Int))) (hpred : PredOk X sel x P)
+    (hf : ∃ w, VM.fetch X.p (a + 3) = .ok w) :
+    Delivers X (a + 3) T S S C (kindList t i (min cmax (runLen X.se P i)) C) s := by
+  simp only [charloopTypes, setloopTypes, List.mem_append, List.mem_cons, List.not_mem_nil, or_false] at ht
+  rcases ht with (rfl | rfl | rfl | rfl | rfl | rfl) | (rfl | rfl | rfl)
+  · -- opNotoneloop
+    have hdec := (decode_bits opNotoneloop (by decide) false ci).2
+    have hoper : s.oper = ⟨opNotoneloop, false, false, false, ci⟩ := by rw [he.oper hia]; exact hdec
+    have hop : Op.ofNat? s.oper.op = some .notoneloop := by rw [hoper]; rfl
+    have hb : s.oper.back = false := by rw [hoper]
+    have hb2 : s.oper.back2 = false := by rw [hoper]
+    have hsel : sel = 1 := by rw [hselv]; rfl
+    subst hsel
+    have hback : ∀ s2 : VMState, s2.oper = { decode (i2 (opNotoneloop ||| bits false ci) x (cmax : Int)).op with back := true } →
+        VM.body X.p X.env s2 = VM.caseLoopBack s2 := by
+      intro s2 h2
+      have h2' : s2.oper = ⟨opNotoneloop, false, true, false, ci⟩ := by rw [h2]; show { decode (opNotoneloop ||| bits false ci) with back := true } = _; rw [hdec]
+      have hop2 : Op.ofNat? s2.oper.op = some .notoneloop := by rw [h2']; rfl
+      have hbb : s2.oper.back = true := by rw [h2']
+      have hbb2 : s2.oper.back2 = false := by rw [h2']
+      simp only [body, hop2, modeOf, hbb, hbb2]
+    have := loop_delivers hrel hi he (sel := 1) (atomic := false) hia rfl rfl (o := .notoneloop) (by show Op.ofNat? (decode (opNotoneloop ||| bits false ci)).op = _; rw [hdec]; rfl)
+      (fun _ => rfl) (by simp only [body, hop, modeOf, hb, hb2]) (fun _ => hback) (by show (decode (opNotoneloop ||| bits false ci)).rtl = _; rw [hdec]) hpred hf
+    exact this
+  · -- opNotoneloopatomic
+    have hdec := (decode_bits opNotoneloopatomic (by decide) false ci).2
+    have hoper : s.oper = ⟨opNotoneloopatomic, false, false, false, ci⟩ := by rw [he.oper hia]; exact hdec
+    have hop : Op.ofNat? s.oper.op = some .notoneloopatomic := by rw [hoper]; rfl
+    have hb : s.oper.back = false := by rw [hoper]
+    have hb2 : s.oper.back2 = false := by rw [hoper]
+    have hsel : sel = 1 := by rw [hselv]; rfl
+    subst hsel
+    have := loop_delivers hrel hi he (sel := 1) (atomic := true) hia rfl rfl (o := .notoneloopatomic) (by show Op.ofNat? (decode (opNotoneloopatomic ||| bits false ci)).op = _; rw [hdec]; rfl)
+      (fun h => by cases h) (by simp only [body, hop, modeOf, hb, hb2]) (fun h => by cases h) (by show (decode (opNotoneloopatomic ||| bits false ci)).rtl = _; rw [hdec]) hpred hf
+    exact this
+  · -- opNotonelazy
+    have hdec := (decode_bits opNotonelazy (by decide) false ci).2
+    have hoper : s.oper = ⟨opNotonelazy, false, false, false, ci⟩ := by rw [he.oper hia]; exact hdec
+    have hop : Op.ofNat? s.oper.op = some .notonelazy := by rw [hoper]; rfl
+    have hb : s.oper.back = false := by rw [hoper]
+    have hb2 : s.oper.back2 = false := by rw [hoper]
+    have hsel : sel = 1 := by rw [hselv]; rfl
+    subst hsel
+    have hback : ∀ s2 : VMState, s2.oper = { decode (i2 (opNotonelazy ||| bits false ci) x (cmax : Int)).op with back := true } →
+        VM.body X.p X.env s2 = VM.caseLazyBack X.p X.env 1 s2 := by
+      intro s2 h2
+      have h2' : s2.oper = ⟨opNotonelazy, false, true, false, ci⟩ := by rw [h2]; show { decode (opNotonelazy ||| bits false ci) with back := true } = _; rw [hdec]
+      have hop2 : Op.ofNat? s2.oper.op = some .notonelazy := by rw [h2']; rfl
+      have hbb : s2.oper.back = true := by rw [h2']
+      have hbb2 : s2.oper.back2 = false := by rw [h2']
+      simp only [body, hop2, modeOf, hbb, hbb2]
+    have := lazy_delivers hrel hi he (sel := 1) hia rfl rfl (o := .notonelazy) (by show Op.ofNat? (decode (opNotonelazy ||| bits false ci)).op = _; rw [hdec]; rfl)
+      rfl (by simp only [body, hop, modeOf, hb, hb2]) hback (by show (decode (opNotonelazy ||| bits false ci)).rtl = _; rw [hdec]) hpred hf
+    exact this
+  · -- opOneloop
+    have hdec := (decode_bits opOneloop (by decide) false ci).2
+    have hoper : s.oper = ⟨opOneloop, false, false, false, ci⟩ := by rw [he.oper hia]; exact hdec
+    have hop : Op.ofNat? s.oper.op = some .oneloop := by rw [hoper]; rfl
+    have hb : s.oper.back = false := by rw [hoper]
+    have hb2 : s.oper.back2 = false := by rw [hoper]
+    have hsel : sel = 0 := by rw [hselv]; rfl
+    subst hsel
+    have hback : ∀ s2 : VMState, s2.oper = { decode (i2 (opOneloop ||| bits false ci) x (cmax : Int)).op with back := true } →
+        VM.body X.p X.env s2 = VM.caseLoopBack s2 := by
+      intro s2 h2
+      have h2' : s2.oper = ⟨opOneloop, false, true, false, ci⟩ := by rw [h2]; show { decode (opOneloop ||| bits false ci) with back := true } = _; rw [hdec]
+      have hop2 : Op.ofNat? s2.oper.op = some .oneloop := by rw [h2']; rfl
+      have hbb : s2.oper.back = true := by rw [h2']
+      have hbb2 : s2.oper.back2 = false := by rw [h2']
+      simp only [body, hop2, modeOf, hbb, hbb2]
+    have := loop_delivers hrel hi he (sel := 0) (atomic := false) hia rfl rfl (o := .oneloop) (by show Op.ofNat? (decode (opOneloop ||| bits false ci)).op = _; rw [hdec]; rfl)
+      (fun _ => rfl) (by simp only [body, hop, modeOf, hb, hb2]) (fun _ => hback) (by show (decode (opOneloop ||| bits false ci)).rtl = _; rw [hdec]) hpred hf
+    exact this
+  · -- opOneloopatomic
+    have hdec := (decode_bits opOneloopatomic (by decide) false ci).2
+    have hoper : s.oper = ⟨opOneloopatomic, false, false, false, ci⟩ := by rw [he.oper hia]; exact hdec
+    have hop : Op.ofNat? s.oper.op = some .oneloopatomic := by rw [hoper]; rfl
+    have hb : s.oper.back = false := by rw [hoper]
+    have hb2 : s.oper.back2 = false := by rw [hoper]
+    have hsel : sel = 0 := by rw [hselv]; rfl
+    subst hsel
+    have := loop_delivers hrel hi he (sel := 0) (atomic := true) hia rfl rfl (o := .oneloopatomic) (by show Op.ofNat? (decode (opOneloopatomic ||| bits false ci)).op = _; rw [hdec]; rfl)
+      (fun h => by cases h) (by simp only [body, hop, modeOf, hb, hb2]) (fun h => by cases h) (by show (decode (opOneloopatomic ||| bits false ci)).rtl = _; rw [hdec]) hpred hf
+    exact this
+  · -- opOnelazy
+    have hdec := (decode_bits opOnelazy (by decide) false ci).2
+    have hoper : s.oper = ⟨opOnelazy, false, false, false, ci⟩ := by rw [he.oper hia]; exact hdec
+    have hop : Op.ofNat? s.oper.op = some .onelazy := by rw [hoper]; rfl
+    have hb : s.oper.back = false := by rw [hoper]
+    have hb2 : s.oper.back2 = false := by rw [hoper]
+    have hsel : sel = 0 := by rw [hselv]; rfl
+    subst hsel
+    have hback : ∀ s2 : VMState, s2.oper = { decode (i2 (opOnelazy ||| bits false ci) x (cmax : Int)).op with back := true } →
+        VM.body X.p X.env s2 = VM.caseLazyBack X.p X.env 0 s2 := by
+      intro s2 h2
+      have h2' : s2.oper = ⟨opOnelazy, false, true, false, ci⟩ := by rw [h2]; show { decode (opOnelazy ||| bits false ci) with back := true } = _; rw [hdec]
+      have hop2 : Op.ofNat? s2.oper.op = some .onelazy := by rw [h2']; rfl
+      have hbb : s2.oper.back = true := by rw [h2']
+      have hbb2 : s2.oper.back2 = false := by rw [h2']
+      simp only [body, hop2, modeOf, hbb, hbb2]
+    have := lazy_delivers hrel hi he (sel := 0) hia rfl rfl (o := .onelazy) (by show Op.ofNat? (decode (opOnelazy ||| bits false ci)).op = _; rw [hdec]; rfl)
+      rfl (by simp only [body, hop, modeOf, hb, hb2]) hback (by show (decode (opOnelazy ||| bits false ci)).rtl = _; rw [hdec]) hpred hf
+    exact this
+  · -- opSetloop
+    have hdec := (decode_bits opSetloop (by decide) false ci).2
+    have hoper : s.oper = ⟨opSetloop, false, false, false, ci⟩ := by rw [he.oper hia]; exact hdec
+    have hop : Op.ofNat? s.oper.op = some .setloop := by rw [hoper]; rfl
+    have hb : s.oper.back = false := by rw [hoper]
+    have hb2 : s.oper.back2 = false := by rw [hoper]
+    have hsel : sel = 2 := by rw [hselv]; rfl
+    subst hsel
+    have hback : ∀ s2 : VMState, s2.oper = { decode (i2 (opSetloop ||| bits false ci) x (cmax : Int)).op with back := true } →
+        VM.body X.p X.env s2 = VM.caseLoopBack s2 := by
+      intro s2 h2
+      have h2' : s2.oper = ⟨opSetloop, false, true, false, ci⟩ := by rw [h2]; show { decode (opSetloop ||| bits false ci) with back := true } = _; rw [hdec]
+      have hop2 : Op.ofNat? s2.oper.op = some .setloop := by rw [h2']; rfl
+      have hbb : s2.oper.back = true := by rw [h2']
+      have hbb2 : s2.oper.back2 = false := by rw [h2']
+      simp only [body, hop2, modeOf, hbb, hbb2]
+    have := loop_delivers hrel hi he (sel := 2) (atomic := false) hia rfl rfl (o := .setloop) (by show Op.ofNat? (decode (opSetloop ||| bits false ci)).op = _; rw [hdec]; rfl)
+      (fun _ => rfl) (by simp only [body, hop, modeOf, hb, hb2]) (fun _ => hback) (by show (decode (opSetloop ||| bits false ci)).rtl = _; rw [hdec]) hpred hf
+    exact this
+  · -- opSetlazy
+    have hdec := (decode_bits opSetlazy (by decide) false ci).2
+    have hoper : s.oper = ⟨opSetlazy, false, false, false, ci⟩ := by rw [he.oper hia]; exact hdec
+    have hop : Op.ofNat? s.oper.op = some .setlazy := by rw [hoper]; rfl
+    have hb : s.oper.back = false := by rw [hoper]
+    have hb2 : s.oper.back2 = false := by rw [hoper]
+    have hsel : sel = 2 := by rw [hselv]; rfl
+    subst hsel
+    have hback : ∀ s2 : VMState, s2.oper = { decode (i2 (opSetlazy ||| bits false ci) x (cmax : Int)).op with back := true } →
+        VM.body X.p X.env s2 = VM.caseLazyBack X.p X.env 2 s2 := by
+      intro s2 h2
+      have h2' : s2.oper = ⟨opSetlazy, false, true, false, ci⟩ := by rw [h2]; show { decode (opSetlazy ||| bits false ci) with back := true } = _; rw [hdec]
+      have hop2 : Op.ofNat? s2.oper.op = some .setlazy := by rw [h2']; rfl
+      have hbb : s2.oper.back = true := by rw [h2']
+      have hbb2 : s2.oper.back2 = false := by rw [h2']
+      simp only [body, hop2, modeOf, hbb, hbb2]
+    have := lazy_delivers hrel hi he (sel := 2) hia rfl rfl (o := .setlazy) (by show Op.ofNat? (decode (opSetlazy ||| bits false ci)).op = _; rw [hdec]; rfl)
+      rfl (by simp only [body, hop, modeOf, hb, hb2]) hback (by show (decode (opSetlazy ||| bits false ci)).rtl = _; rw [hdec]) hpred hf
+    exact this
+  · -- opSetloopatomic
+    have hdec := (decode_bits opSetloopatomic (by decide) false ci).2
+    have hoper : s.oper = ⟨opSetloopatomic, false, false, false, ci⟩ := by rw [he.oper hia]; exact hdec
+    have hop : Op.ofNat? s.oper.op = some .setloopatomic := by rw [hoper]; rfl
+    have hb : s.oper.back = false := by rw [hoper]
+    have hb2 : s.oper.back2 = false := by rw [hoper]
+    have hsel : sel = 2 := by rw [hselv]; rfl
+    subst hsel
+    have := loop_delivers hrel hi he (sel := 2) (atomic := true) hia rfl rfl (o := .setloopatomic) (by show Op.ofNat? (decode (opSetloopatomic ||| bits false ci)).op = _; rw [hdec]; rfl)
+      (fun h => by cases h) (by simp only [body, hop, modeOf, hb, hb2]) (fun h => by cases h) (by show (decode (opSetloopatomic ||| bits false ci)).rtl = _; rw [hdec]) hpred hf
+    exact this
+
 end loops
 
 end RegexVerif.Compile
